@@ -450,6 +450,9 @@ func TestVerifC21(t *testing.T) {
 			overrides: []c21Override{{kind: "glob", tenants: []string{"prefix*"}, size: 3}}},
 	}
 	fixed[1].shard = 2 // shard >= RF
+	if !fixedInputs("C21") {
+		fixed = nil
+	}
 	for i, c := range fixed {
 		msg, nt, classes := c21Check(c, known[sigC21EmptyMatcher], rec)
 		if msg != "" {
